@@ -31,7 +31,7 @@ Definition stable_order (l : list hnote) : list nat :=
 Definition all_orders (src tgt : hmap) (recorded : list (option (list nat) * option (list nat)))
   : list (list nat * list nat) :=
   let ss := stable_order (filter loud (notes_df src)) in
-  let st := stable_order (notes_df tgt) in
+  let st := stable_order (map reset_note (notes_df tgt)) in
   let get (d : list nat) (o : option (list nat)) := match o with Some p => p | None => d end in
   let rec' := map (fun pq => (get ss (fst pq), get st (snd pq))) recorded in
   rec' ++ flat_map (fun pq => [(fst pq, st); (ss, snd pq)]) rec' ++ [(ss, st)].
